@@ -417,7 +417,17 @@ class Machine:
             start, stop = stop, start
         want = model_range(start, stop, step)
         kw = self.iter_kwargs(op, start, stop, step)
-        got = list(self.obj.iter(listeners=self.listeners, **kw))
+        half_ok = (stop - start) // step >= 4 and (
+            not self.numeric or ((stop - start) // step // 2) * step >= 9 * self.case["init"]["h"] * US)
+        if op.get("early") and half_ok:
+            # the iteration is REQUESTED, then another one using the same listener objects (the first half of the
+            # span) is requested and consumed, and only then is the first one consumed
+            it = self.obj.iter(listeners=self.listeners, **kw)
+            half = start + ((stop - start) // step // 2) * step
+            list(self.obj.iter(listeners=self.listeners, **self.iter_kwargs(dict(op, stop_as_td=False), start, half, step)))
+            got = list(it)
+        else:
+            got = list(self.obj.iter(listeners=self.listeners, **kw))
         # A sample that coincides with a crossing may itself carry an event (the bisection returns the
         # very sample object): samples are therefore matched by date, in order; what is left over must
         # be events.
@@ -453,7 +463,7 @@ class Machine:
         got_ev = [(us_of(s.date), str(s.event)) for s in got if s.event is not None and off_sample(us_of(s.date))]
         if len(ref_ev) != len(got_ev) or any(abs(a[0] - b[0]) > 2 or a[1] != b[1] for a, b in zip(ref_ev, got_ev)):
             raise Violation("listener-reuse", f"events with re-used listener objects {got_ev[:6]} differ from a fresh run {ref_ev[:6]}")
-        tags = ["iter_listeners", f"events:{min(len(got_ev), 3)}"]
+        tags = ["iter_listeners", f"events:{min(len(got_ev), 3)}"] + (["requested-early"] if op.get("early") and half_ok else [])
         # A yielded state is an orbit in its own right: taken as the start of a new iteration (it shares the
         # propagator object, and, for an event state, carries an `event`), it must give what a freshly built
         # orbit holding the same numbers gives - same samples, same events, no event on plain samples.
@@ -774,6 +784,8 @@ def op_strategy(draw, kind, h_us, span_us):
              stop_as_td=draw(st.booleans()), neg_step=draw(st.booleans()), explicit_start=draw(st.booleans()))
     if name == "partial":
         d["k"] = draw(st.integers(0, 5))
+    if name == "iter_listeners":
+        d["early"] = draw(st.booleans())
     if name == "interleave":
         d["k"] = draw(st.integers(0, 20))
         d["t_us"] = t()
